@@ -229,8 +229,8 @@ fn replay(src: &[u8]) -> i32 {
 /// a few hundred levels: still cheap enough to re-run the model parser under vm_compute
 fn medium_deep_inputs() -> Vec<Vec<u8>> {
     vec![
-        format!("rule d {{condition: {}true}}", "not ".repeat(1000)).into_bytes(),
-        format!("rule d {{condition: {}1{} == 1 and {}$a{}}}", "-(".repeat(200), ")".repeat(200), "(".repeat(300), ")".repeat(300)).into_bytes(),
+        format!("rule d {{condition: {}true}}", "not ".repeat(700)).into_bytes(),
+        format!("rule d {{condition: {}1{} == 1 and {}$a{}}}", "-(".repeat(150), ")".repeat(150), "(".repeat(200), ")".repeat(200)).into_bytes(),
     ]
 }
 
@@ -265,6 +265,14 @@ fn corpus() -> Vec<Vec<u8>> {
         b"rule a {condition: with x = 1, y = 2 : ( x == y ) }",
         b"rule a {condition: 50% of them }",
         b"rule a {condition: not not not true and ( ( ( false ) ) ) }",
+        // multi-line comments whose first / middle / LAST line holds 2-, 3- and 4-byte characters, with
+        // tokens following on the same line (columns in UTF-16/UTF-32 units differ from bytes)
+        "rule a /* x\n\u{e9}\u{20ac}\u{1f600} */ {condition: true}".as_bytes(),
+        "rule a /* \u{1f600}\n y */ { /* a\n\u{e9}\n\u{1f600}\u{1f600} */ condition: /* \u{20ac} */ true /* z\r\n\u{1f600}\u{e9} */ }".as_bytes(),
+        "rule a {condition: /* q\r\n\u{4e2d}\u{6587}\u{1f600} */ $a $b /* \n\u{1f600} */ ) true}".as_bytes(),     // next to an error site
+        "rule a {strings: $a = { 01 /* h\n\u{1f600}\u{e9} */ 02 [2-4] /* \u{20ac}\n\u{1f600} */ 03 } /* \n\u{e9} */ private condition: $a}".as_bytes(),
+        "/* \u{1f600}\n\u{1f600} */rule a{condition:true}/* \n\u{10ffff}\u{7ff}\u{800} */rule b{condition:false}".as_bytes(),
+        "rule a // \u{1f600}\n /* \u{1f600} */ {condition: \"\u{1f600}\" /* \n\n\u{1f600} */ == \"x\"}".as_bytes(),
         // repaired by 03453382: a truncated multi-byte Unicode space lost a byte (e28061 family)
         b"rule a {condition: \xe2\x80true}",
         b"\xe2\x81",
